@@ -85,6 +85,11 @@ CHECKS = {
   technique='TLA+ spec Interp.tla (exact rational values of the documented Shepard / sph / splash sums and the order1 moment system on lattice data with a probe kernel; binding state machine) with InterpMC.tla model-checked by TLC; histories of the real Interpolator / SPHEvaluator decided by TLC (TraceInterp.tla)',
   text='With a probe kernel whose values are exact on dyadic lattice data, every method has an exact rational value that Interp.tla computes; TLC proves the order-type clauses (bounds, constant reproduction, zero outside the support, linear reproduction where the moment matrix is provably regular) as theorems on small universes and checks that a binding state machine follows the current sources and points. Real Interpolator and SPHEvaluator objects (five methods, 1-3 D, several source arrays, periodic domains, explicit target points) are driven through histories of set_interpolation_points / update_particle_arrays / move+update / interpolate, and TLC compares every returned value with the specification; shipped kernels are checked for the order-type clauses.',
   note='Floats are recorded as exact fractions (limit_denominator 2^15) plus a residual at 2^-40. order1 is judged by linear reproduction only. Automatic target grids are not driven.'),
+ 'C02': dict(
+  cat='translation_validation', design_ref='DESIGN.md section 5 (C02), 4.4, 2 (D1-D3)',
+  technique='TLA+ spec EvalData.tla (symbol table with the documented formulas, probe kernel, probe-IR interpreter Eval over AccelEval.tla\'s order) model-checked by TLC on a small universe; three-way exact equality TLC Eval == reference executor == compiled code on generated probe programs; shipped equation classes compiled vs the spec-bound reference executor, decided by TLC (TraceEvalData.tla)',
+  text='Stage 1: random probe programs (every precomputed symbol, every type x stride, constants, attributes, matrices, helpers, t/dt, several destinations/sources) on exact lattice data are compiled by the real generator; TLC computes the final integer state from the specification and requires it to equal both the compiled result and the result of the reference executor, which executes the real Python methods in the specification\'s order (its hook log is validated by TraceAccelEval.tla; the symbol table extracted from the real code must equal the TLA+ table). Stage 2: every shipped Equation class that can be instantiated automatically is evaluated compiled vs the reference executor for every kernel and dimension; TLC applies the tolerance clause (bit-exact for arithmetic-only methods, 1e-12 relative otherwise).',
+  note='Trusted in stage 2: the reference executor (bound to the specification by stage 1 on every run), CPython, numpy. Classes not instantiable automatically are listed in the evidence. The order of neighbours seen by the compiled code is C03\'s business.'),
 }
 
 NOT_APPLICABLE = {
